@@ -11,18 +11,25 @@ cd "$W/repo"
 /venv/bin/python seeded_out/x/demo.py >"$W/clean.out" 2>&1; c=$?
 git apply "$SRC/patch.diff" || { echo "$ID: patch does not apply to HEAD"; cd /; git -C /repo worktree remove --force "$W/repo"; rm -rf "$W"; exit 2; }
 /venv/bin/python seeded_out/x/demo.py >"$W/mut.out" 2>&1; m=$?
-/venv/bin/python -m pytest -q -p no:cacheprovider -x >"$W/tests.out" 2>&1; t=$?
+/venv/bin/python -m pytest -q -p no:cacheprovider >"$W/tests.out" 2>&1; t=$?
 tail -1 "$W/tests.out" > "$W/tests.tail"
-if [ $t -ne 0 ]; then   # flaky tests exist: rerun the failing file once
-  f=$(grep -m1 '^FAILED' "$W/tests.out" | sed 's/^FAILED \([^:]*\)::.*/\1/')
-  if [ -n "$f" ]; then /venv/bin/python -m pytest -q -p no:cacheprovider "$f" >"$W/rerun.out" 2>&1; t2=$?; else t2=1; fi
-  if [ $t2 -eq 0 ]; then /venv/bin/python -m pytest -q -p no:cacheprovider >"$W/tests.out" 2>&1; t=$?; tail -1 "$W/tests.out" > "$W/tests.tail"; fi
+if [ $t -ne 0 ]; then   # some tests of the suite are flaky (random inputs, float32 tolerances): rerun only the failed ones
+  grep '^FAILED' "$W/tests.out" | sed 's/^FAILED \([^ ]*\).*/\1/' > "$W/failed.txt"
+  t=0
+  while read -r nodeid; do
+    okk=1
+    for try in 1 2 3; do
+      if /venv/bin/python -m pytest -q -p no:cacheprovider "$nodeid" >"$W/rerun.out" 2>&1; then okk=0; break; fi
+    done
+    if [ $okk -ne 0 ]; then t=1; echo "still failing: $nodeid" >> "$W/tests.tail"; fi
+  done < "$W/failed.txt"
+  [ $t -eq 0 ] && echo "(failed on first run, passed when rerun alone: $(tr '\n' ' ' < $W/failed.txt))" >> "$W/tests.tail"
 fi
 cd /verif
 echo "$ID: demo clean exit=$c, demo with patch exit=$m, test-suite exit=$t ($(cat $W/tests.tail))"
 if [ $c -eq 0 ] && [ $m -ne 0 ] && [ $t -eq 0 ]; then
   mkdir -p "/verif/seeded/$ID" && cp "$SRC/patch.diff" "$SRC/demo.py" "/verif/seeded/$ID/"
-  python3 - "$SRC/meta.json" "/verif/seeded/$ID/meta.json" "$PID" "$(cat $W/tests.tail)" "$(tail -3 $W/mut.out | tr '\n' ' ')" <<'PY'
+  python3 - "$SRC/meta.json" "/verif/seeded/$ID/meta.json" "$PID" "$(tr '\n' ' ' < $W/tests.tail)" "$(tail -3 $W/mut.out | tr '\n' ' ')" <<'PY'
 import json,sys
 src,dst,pid,tests,mut=sys.argv[1:6]
 m=json.load(open(src))
